@@ -286,6 +286,28 @@ fn run(case: &HashMap<String, String>) -> String {
             }
             format!("{{\"outcome\":\"ok\",\"fails\":[{}]}}", fails.iter().map(|s| format!("\"{}\"", s)).collect::<Vec<_>>().join(","))
         }
+        "batch_rr" => {
+            // translator validation: several records at once; "cases" = hex strings separated by ','
+            let mut out: Vec<String> = Vec::new();
+            for h in case["cases"].split(',') {
+                let b = unhex(h);
+                let mut pos = 0usize;
+                let r = std::panic::catch_unwind(|| {
+                    let mut pos = 0usize;
+                    match ResourceRecord::parse(&b, &mut pos) {
+                        Ok(rr) => {
+                            let mut w = Vec::new();
+                            let ok = rr.write_to(&mut w).is_ok();
+                            format!("\"ok:{}:{}:{}:{}:{}:{}\"", pos, u16::from(rr.rdata.type_code()), rr.len(), rr.ttl, ok, hex(&w))
+                        }
+                        Err(_) => "\"err\"".to_string(),
+                    }
+                });
+                let _ = &mut pos;
+                out.push(r.unwrap_or_else(|_| "\"panic\"".to_string()));
+            }
+            format!("{{\"outcome\":\"ok\",\"results\":[{}]}}", out.join(","))
+        }
         "packet_frame" => {
             let wp: usize = case["walker_pos"].parse().unwrap();
             let mut fails: Vec<&str> = Vec::new();
